@@ -33,7 +33,9 @@ import (
 	"github.com/BurntSushi/toml"
 )
 
-const (
+// (variables, not constants: TestVerifLivenessBoundary replays the fine-resolution instances of the spec with a
+// 3 min tick; every other driver uses the values below)
+var (
 	vlcTick   = time.Hour
 	vlcMaxAge = 3
 	// lifetimes strictly between two ticks: a live verdict is fresh at ages 0,1,2 (LiveLife = 3), a non-live
@@ -42,15 +44,20 @@ const (
 	vlcNonLiveDur = "1h30m"
 	vlcLiveLife   = 3
 	vlcNonLife    = 2
+	// injective map abstract address -> concrete IP; nil = 192.0.2.n.  The last octet always carries n (vlcName)
+	vlcIPMap func(n int) string
 )
 
 func vlcIP(name string) string {
 	n, _ := strconv.Atoi(strings.TrimPrefix(name, "a"))
+	if vlcIPMap != nil {
+		return vlcIPMap(n)
+	}
 	return fmt.Sprintf("192.0.2.%d", n)
 }
 
 func vlcName(ip string) string {
-	parts := strings.Split(ip, ".")
+	parts := strings.Split(strings.ReplaceAll(ip, ":", "."), ".")
 	return "a" + parts[len(parts)-1]
 }
 
@@ -423,6 +430,122 @@ func TestVerifLivenessReplay(t *testing.T) {
 	})
 	uls, _ := vlcUncachedLiveStat.Load().(string)
 	out.Emit(map[string]any{"kind": "summary", "behaviours": nb, "steps": ns, "mismatches": nm, "skipped": nskip, "per": per, "uncachedLiveStat": uls})
+}
+
+// Boundary stage: the fine-resolution instance of the spec (3 min tick, LiveLife = 50, NonLiveLife = 30; queries
+// just below, AT and just after the configured lifetime) replayed on the real tester under VERIF_MAPS injective
+// address maps per behaviour (the spec is symmetric in Addrs; the implementation must be too - a lifetime that
+// depends on the address is then seen whatever class the address falls in).  Same comparison as the replay driver.
+func vlcBoundaryMap(k int) func(n int) string {
+	switch k % 4 {
+	case 3: // IPv6 phantoms
+		return func(n int) string { return fmt.Sprintf("2001:db8:%x:%x::%d", k*2654435761%65521, k, n) }
+	default:
+		return func(n int) string { return fmt.Sprintf("%d.%d.%d.%d", 11+(k*7)%200, (k*37)%251, (k*101+k/3)%256, n) }
+	}
+}
+
+func TestVerifLivenessBoundary(t *testing.T) {
+	out := vOpenOut(t)
+	defer out.Close()
+	vlcTick, vlcMaxAge = 3*time.Minute, 55
+	vlcLiveDur, vlcNonLiveDur = "2h28m30s", "1h28m30s" // half a tick short of 50 / 30 ticks
+	vlcLiveLife, vlcNonLife = 50, 30
+	nmaps := vEnvInt("VERIF_MAPS", 64)
+	confs := map[string]*Config{}
+	nb, nrep, ns, nm, nskip := 0, 0, 0, 0, 0
+	atL, atN, hitsBelow := 0, 0, 0 // queries made with an entry of age in [Life, 1.1 Life) / fresh hits at the last tick classes below
+	ips := map[string]bool{}
+	vReadLines(t, func(line []byte) {
+		var beh []map[string]any
+		if err := json.Unmarshal(line, &beh); err != nil {
+			t.Fatalf("bad behaviour: %v", err)
+		}
+		cfg := beh[0]["cfg"].(map[string]any)
+		key := vlcCfgKey(cfg)
+		if confs[key] == nil {
+			c, err := vlcConfigured(cfg)
+			if err != nil {
+				t.Fatalf("config: %v", err)
+			}
+			confs[key] = c
+		}
+		counted := false
+		for k := 0; k < nmaps; k++ {
+			vlcIPMap = vlcBoundaryMap(k)
+			tst, err := New(confs[key])
+			if err != nil {
+				t.Fatalf("New: %v", err)
+			}
+			w := &vlcWorld{t: tst, world: map[string]bool{}}
+			lk, nk := "off", "off"
+			switch x := tst.(type) {
+			case *CachedLivenessTester:
+				w.clt = x
+				x.phantomIsLive = w.probe
+				lk, _ = vlcKind(x.ipCacheLive)
+				nk, _ = vlcKind(x.ipCacheNonLive)
+			case *UncachedLivenessTester:
+				w.unc = x
+				x.phantomIsLive = w.probe
+			}
+			// (the capacity -> kind mapping is stage B's subject; here: replay the instance matching the real kinds)
+			if lk != cfg["lk"] || nk != cfg["nk"] {
+				nskip++
+				return
+			}
+			if !counted {
+				counted = true
+				nb++
+			}
+			nrep++
+			for i, step := range beh[1:] {
+				ns++
+				if step["a"] == "Query" && w.clt != nil {
+					ip := vlcIP(step["addr"].(string))
+					ips[ip] = true
+					now := time.Now()
+					if e := vlcElems(w.clt.ipCacheLive)[ip]; e != nil {
+						if a := vlcAgeClass(now.Sub(e.cachedTime)); a >= vlcLiveLife && a*10 < vlcLiveLife*11 {
+							atL++
+						} else if a < vlcLiveLife && a*10 >= vlcLiveLife*8 {
+							hitsBelow++
+						}
+					}
+					if e := vlcElems(w.clt.ipCacheNonLive)[ip]; e != nil {
+						if a := vlcAgeClass(now.Sub(e.cachedTime)); a >= vlcNonLife && a*10 < vlcNonLife*11 {
+							atN++
+						} else if a < vlcNonLife && a*10 >= vlcNonLife*8 {
+							hitsBelow++
+						}
+					}
+				}
+				var got map[string]any
+				func() {
+					defer func() {
+						if r := recover(); r != nil {
+							got = map[string]any{"a": step["a"], "panic": fmt.Sprint(r)}
+						}
+					}()
+					got = w.apply(step)
+				}()
+				if vCanon(vNorm(got)) != vCanon(step) {
+					nm++
+					if nm <= 300 {
+						m := map[string]any{"kind": "mismatch", "cfg": cfg, "map": k, "step": i + 1, "want": step, "got": vNorm(got), "ops": vlcOps(beh[:i+2])}
+						if step["a"] == "Query" {
+							m["ip"] = vlcIP(step["addr"].(string))
+						}
+						out.Emit(m)
+					}
+					break
+				}
+			}
+		}
+	})
+	out.Emit(map[string]any{"kind": "summary", "behaviours": nb, "replays": nrep, "steps": ns, "mismatches": nm, "skipped": nskip,
+		"maps": nmaps, "distinctIPs": len(ips), "queriesAtLifeLive": atL, "queriesAtLifeNonLive": atN, "queriesJustBelow": hitsBelow,
+		"tick": vlcTick.String(), "live": vlcLiveDur, "nonlive": vlcNonLiveDur})
 }
 
 // random histories over a larger alphabet than TLC explores exhaustively
